@@ -266,13 +266,13 @@ chk("C01", "other",
 
 chk("C03", "other",
     "PARTIAL. 'A specification-compliant parser' is made precise by the Gallina specification model CM (Spec/CMBlock.v: the CommonMark block "
-    "structure - leaf blocks, block quotes, lists, tight/loose - written from the specification and the reference strategy, not from PyMarkdown), "
-    "on the fragment F of documents without tabs and inline markup. Theorems (Coq, closed) are about CM: its renderer's escaping lets no raw tag or "
-    "attribute character through; documents of F contain none of the excluded characters. CM itself is validated on every run against the 180 "
+    "structure - leaf blocks, block quotes, lists, tight/loose - plus code spans, emphasis (delimiter-stack algorithm) and numeric character references, written from the specification and the reference strategy, not from PyMarkdown), "
+    "on the fragment F of documents (no tabs, links, images, raw HTML, named entities or backslash escapes; with code spans, emphasis and numeric character references). Theorems (Coq, closed) are about CM: its renderer's escaping lets no raw tag or "
+    "attribute character through; documents of F contain none of the excluded characters. CM itself is validated on every run against the 348 "
     "CommonMark 0.31.2 examples inside F (all agree) and against the vendored markdown-it-py. That PyMarkdown refines CM is NOT proved: rendered "
     "HTML (up to newlines next to tags) is compared on every document of <= 3 lines over a 23-template leaf vocabulary and a 16-template container "
-    "vocabulary, all 4-line container documents and an extended 2-line space; on a disagreement markdown-it-py arbitrates. About 3 100 failing "
-    "inputs of the pinned tree are listed as known findings. Outside F (inline constructs, HTML blocks, link reference definitions, tabs) nothing is claimed.",
+    "vocabulary, all 4-line container documents, an extended 2-line space, delimiter runs to 6 symbols, emphasis in blocks and numeric references; on a disagreement markdown-it-py arbitrates. About 3 100 failing "
+    "inputs of the pinned tree are listed as known findings. Outside F (links, images, HTML, named entities, backslash escapes, link reference definitions, tabs) nothing is claimed. The fuel of the block phase is proved adequate (cm_fuel_adequate).",
     "Trusted: Coq kernel, extraction + driver.ml, the spec model as a specification (validated, not verified), markdown-it-py (vendored) as arbiter, norm_html.",
     "Gallina spec model of CommonMark blocks (validated on spec examples) + refinement by HTML comparison on enumerated documents (category 'other')",
     "DESIGN.md section 4 C03")
